@@ -3,3 +3,8 @@ add("C01", "exploration",
     "Held on the executions explored: every call of thousands of concurrent echo calls (raw peers with all id classes, library clients crossing 10^6 / 2^31) got exactly one answer carrying its own id, nonce and payload digest, and its handler ran once. Sampling of interleavings, not enumeration.",
     "Trusted: the harness's raw peers, SSE parser and checkers; handler-side counters recorded by harness code registered through the public API. Ids above 2^53 are outside the statement.",
     "DESIGN.md section 4 C01")
+add("C03", "exploration",
+    "runtime monitoring: independent wire oracle (hand-written JSON-RPC/MCP validators) over every frame raw reference peers receive, answer class compared with a reference classifier derived from how each request was generated",
+    "Held on the executions explored: for each of the 7 server configurations every valid request and the full structural mutation lattice (params / each parameter / envelope members removed, retyped to every JSON type, duplicated; notifications; unsolicited responses; unparsable bodies; HTTP-level faults) got a well-formed frame of the prescribed kind with the request's id and the error code of its fault class; no empty or successful 2xx for unserved input.",
+    "Trusted base: lib/wire validators and lib/gen reference classifier (hand-written from MCP 2025-03-26; the official schema file is not in the sandbox). Where the statement fixes no code both -32601/-32602 are accepted.",
+    "DESIGN.md section 4 C03")
